@@ -169,3 +169,20 @@ def run(ctx, rep):
             # the amounts actually removed come from the deletion result, not from the request
             ok = ok and expr_has_call(pe, 'server::streaming::topics::topic::Topic::delete_persisted_partitions')
         rep.ob('R16.f', ctx.user_fn_of(d), '%s(%s)' % (c.name.split('::')[-1], arg[-60:]), ok, c.where(), None if ok else 'metric `%s` is fed `%s`, which is not one of its sources %s' % (what, arg[-80:], toks))
+
+    rep.rule('R16.g', 'the batch size that is accounted is computed from what is stored: with encryption it accumulates the sizes of the encrypted messages inside the encryption loop', floor=2, analysis='A9+A10')
+    forms.check_call_args(ctx, rep, 'R16.g', {SYS + '::append_messages': {'Topic::append_messages': ['phi{::default() | Iterator::sum(Iterator::map(…))}, partitioning, messages, confirmation']}})
+    ab = ctx.fn_body(SYS + '::append_messages')
+    enc = [c for c in ab.calls if c.name == 'iggy::utils::crypto::EncryptorKind::encrypt']
+    acc = [c for c in ab.calls if c.name.endswith('AddAssign>::add_assign') and is_user_call(c) and 'get_size_bytes' in canon(ab.pexpr_operand(c.args[1]), 0, 2)]
+    if not enc or not acc:
+        rep.ob('R16.g', SYS + '::append_messages', 'size accumulated after encryption', False, None, 'with encryption on, the accounted batch size is no longer accumulated from the encrypted messages')
+    else:
+        pay = None
+        for blk in sorted(ab.reach):
+            for st in ab.stmts(blk):
+                lhs = st.get('lhs')
+                if lhs and len(lhs) > 1 and place_fields(lhs) and place_fields(lhs)[-1][1] == 'payload' and not st.get('x'):
+                    pay = blk
+        ok = pay is not None and success_dominates(ab, enc[0], acc[0].bb) and (ab.dominates(pay, acc[0].bb))
+        rep.ob('R16.g', SYS + '::append_messages', 'size accumulated after encryption', ok, acc[0].where(), 'batch_size += message.get_size_bytes() after the payload was replaced by its ciphertext' if ok else 'the size of a message is accounted before its payload is replaced by the (longer) ciphertext')
